@@ -62,3 +62,38 @@ harness! {
         metrics_inner_ops();
     }
 }
+
+/// The real `MetricsInner` over a map that holds ONE counter type (built by struct literal: the
+/// constructor's 11 x 256 atomics are what made `c17_metrics_inner` time out). `add`, `get` and
+/// `clear` are the real functions; all 256 slots of the type are real atomics.
+fn one_type_metrics(t: MetricType) -> MetricsInner {
+    #[allow(clippy::declare_interior_mutable_const)]
+    const Z: AtomicU64 = AtomicU64::new(0);
+    let mut map: BTreeMap<MetricType, [AtomicU64; SIZE_FOR_EACH_TYPE]> = BTreeMap::new();
+    map.insert(t, [Z; SIZE_FOR_EACH_TYPE]);
+    MetricsInner { all: Arc::new(map), life: Histogram::new(vec![2.0]) }
+}
+
+harness! {
+    [kani::unwind(258),
+     kani::stub(std::sync::Arc::drop_slow, stubs::arc_drop_slow)]
+    fn c11_metrics_clear_stripes() {
+        // whatever stripes two updates of a counter landed on, clear() brings the counter back to
+        // zero (C11: "metrics restart from zero"; C17: clear resets every counter)
+        let t = MetricType::Hit;
+        let m = one_type_metrics(t);
+        let h = nd::any_u64();
+        let g = nd::any_u64();
+        let d1 = nd::any_u64();
+        let d2 = nd::any_u64();
+        nd::assume(d1 < (1 << 62) && d2 < (1 << 62));
+        m.add(t, h, d1);
+        m.add(t, g, d2);
+        vassert!(m.get(&t) == d1 + d2, "add(t, hash, delta) raises counter t by delta, whatever stripe the hash selects");
+        m.clear();
+        vassert!(m.get(&t) == 0, "clear() restarts the counter from zero on every stripe");
+        vcover!(h % 25 == 24 && d1 > 0, "an update on the last stripe (slot 240)");
+        vcover!(h % 25 != g % 25 && d1 > 0 && d2 > 0, "two different stripes");
+        std::mem::forget(m);
+    }
+}
